@@ -169,6 +169,7 @@ for f, st, items, dl, enc in PLAIN:
     //@fn core/src/message/{f}.rs MessageOps@{st}::serialize_message
         ensures
             r is Ok,
+            frame_wf(r->Ok_0),
             frame_kind(r->Ok_0) == MessageKind::{st},
             frame_fields(r->Ok_0) == {st}::enc(self),
     //@end
@@ -176,11 +177,11 @@ for f, st, items, dl, enc in PLAIN:
     //@fn core/src/message/{f}.rs MessageOps@{st}::deserialize_message
         ensures
             // round trip: every frame the serializer can produce parses back to the same message
-            forall|m: {st}| frame_kind(buf) == MessageKind::{st} && frame_fields(buf) == #[trigger] {st}::enc(m)
+            forall|m: {st}| frame_wf(buf) && frame_kind(buf) == MessageKind::{st} && frame_fields(buf) == #[trigger] {st}::enc(m)
                 ==> r == Ok::<{st}, MessageDeserializeError>(m),
             // strictness: only frames of this kind with a well-formed field sequence and nothing left over are accepted,
             // and what is accepted re-serializes to the same fields
-            r is Ok ==> frame_kind(buf) == MessageKind::{st} && frame_fields(buf) == {st}::enc(r->Ok_0),
+            r is Ok ==> frame_wf(buf) && frame_kind(buf) == MessageKind::{st} && frame_fields(buf) == {st}::enc(r->Ok_0),
     //@end
 }}
 
@@ -203,6 +204,7 @@ for f, st, items, dl, encf, encv in VALUED:
     //@fn core/src/message/{f}.rs MessageOps@{st}::serialize_message
         ensures
             r is Ok ==> {{
+                &&& frame_wf(r->Ok_0)
                 &&& frame_kind(r->Ok_0) == MessageKind::{st}
                 &&& frame_has_value(r->Ok_0)
                 &&& frame_fields(r->Ok_0) == {st}::enc(self)
@@ -216,12 +218,13 @@ for f, st, items, dl, encf, encv in VALUED:
     //@fn core/src/message/{f}.rs MessageOps@{st}::deserialize_message
         ensures
             // round trip with identical payload
-            forall|m: {st}| frame_kind(buf) == MessageKind::{st} && frame_has_value(buf)
+            forall|m: {st}| frame_wf(buf) && frame_kind(buf) == MessageKind::{st} && frame_has_value(buf)
                 && frame_fields(buf) == #[trigger] {st}::enc(m)
                 && ({st}::enc_value(m) is Some ==> frame_value(buf) == {st}::enc_value(m)->Some_0)
                 ==> r == Ok::<{st}, MessageDeserializeError>(m),
             // strictness
             r is Ok ==> {{
+                &&& frame_wf(buf)
                 &&& frame_kind(buf) == MessageKind::{st}
                 &&& frame_has_value(buf)
                 &&& frame_fields(buf) == {st}::enc(r->Ok_0)
@@ -270,6 +273,7 @@ for f, st, spec, hasv in SER_ONLY:
     //@fn core/src/message/{f}.rs MessageOps@{st}::serialize_message
         ensures
 {okc}            r is Ok ==> {{
+                &&& frame_wf(r->Ok_0)
                 &&& frame_kind(r->Ok_0) == MessageKind::{st}
                 &&& frame_fields(r->Ok_0) == {st}::enc(self)
 {val}            }},
